@@ -154,6 +154,10 @@ type replayFile struct {
 	Tape     simrt.TapeFile `json:"tape"`
 	Key      string         `json:"key"`
 	LogHash  string         `json:"log_hash"`
+	// Regen: no tape was recorded (the run took the process down with a Go
+	// fatal error); replay regenerates it from the recorded per-run seed.
+	Regen bool   `json:"regen"`
+	Seed  uint64 `json:"seed"`
 }
 
 func runOne(t *testing.T, sc *Scenario, prop string, idx int, seed uint64, replay *simrt.TapeFile, keepLog bool) (res Result) {
@@ -355,6 +359,11 @@ func TestWorker(t *testing.T) {
 			fmt.Fprintf(os.Stderr, "no scenario %s/%s\n", rf.Prop, rf.Scenario)
 			os.Exit(2)
 		}
+		if rf.Regen {
+			res := runOne(t, sc, rf.Prop, rf.Run, rf.Seed, nil, keepLog)
+			enc.Encode(res)
+			return
+		}
 		res := runOne(t, sc, rf.Prop, rf.Run, rf.Tape.Seed, &rf.Tape, keepLog)
 		enc.Encode(res)
 		return
@@ -366,6 +375,12 @@ func TestWorker(t *testing.T) {
 	stopOnViol := os.Getenv("VERIF_STOP_ON_VIOLATION") != ""
 	agg := newSummary()
 	defer func() { enc.Encode(map[string]interface{}{"summary": agg}) }()
+	// the run in progress, for the driver: a Go fatal error (out of memory,
+	// stack overflow) cannot be recovered, so the process dies mid-run
+	var curF *os.File
+	if p := os.Getenv("VERIF_CUR"); p != "" {
+		curF, _ = os.Create(p)
+	}
 	for i := from; i < to; i += stride {
 		if deadline > 0 && time.Now().Unix() >= deadline {
 			break
@@ -380,6 +395,9 @@ func TestWorker(t *testing.T) {
 		}
 		if os.Getenv("VERIF_RUN_MARKERS") != "" {
 			fmt.Fprintf(os.Stderr, "#RUN %d %d %s\n", i, seedFor(base, prop, i), sc.Name)
+		}
+		if curF != nil {
+			curF.WriteAt([]byte(fmt.Sprintf("%-12d %-22d %-60s\n", i, seedFor(base, prop, i), sc.Name)), 0)
 		}
 		res := runOne(t, sc, prop, i, seedFor(base, prop, i), nil, keepLog)
 		agg.add(&res)
